@@ -20,7 +20,7 @@ use crate::sched::{OrderSpec, SchedSpec};
 /// tables the input asks for" cannot excuse anything.
 const LARGE_TABLE: isize = 10_000;
 
-const FAULT_KINDS: [&str; 22] = [
+const FAULT_KINDS: [&str; 23] = [
     "truncate",
     "bit_flip",
     "significant_byte",
@@ -31,6 +31,7 @@ const FAULT_KINDS: [&str; 22] = [
     "invalid_utf8",
     "nul_bom_crlf",
     "boundary_integer",
+    "attribute_value",
     "hostile_identifier",
     "backend_garbage",
     "nesting_bomb",
@@ -47,6 +48,21 @@ const FAULT_KINDS: [&str; 22] = [
 
 fn boundary_values(rng: &mut Rng, current: Option<u128>) -> String {
     let two = |n: u32| 1u128 << n;
+    // The values most arithmetic trips over get extra weight.
+    if rng.chance(1, 3) {
+        let hot = [
+            "0".to_string(),
+            "1".to_string(),
+            "-1".to_string(),
+            (two(63) - 1).to_string(),
+            two(63).to_string(),
+            format!("-{}", two(63)),
+            (two(64) - 1).to_string(),
+            (two(32)).to_string(),
+            (two(31)).to_string(),
+        ];
+        return rng.pick(&hot).clone();
+    }
     let mut pool: Vec<String> = vec![
         "0".into(),
         "1".into(),
@@ -319,6 +335,55 @@ fn apply_byte_fault(rng: &mut Rng, kind: &str, files: &mut [(String, Vec<u8>)]) 
                 text.replace_range(a..b, &v);
             }
             *bytes = text.into_bytes();
+        }
+        "attribute_value" => {
+            // The numeric argument of one attribute, chosen per attribute *kind* first so that
+            // rare kinds (an extern type's align, a vftable's size) are hit as often as
+            // addresses.
+            let Ok(text) = std::str::from_utf8(bytes) else {
+                return false;
+            };
+            let mut by_kind: std::collections::BTreeMap<String, Vec<(usize, usize)>> =
+                Default::default();
+            for (a, b) in integer_spans(text) {
+                let before = text[..a].trim_end();
+                if !before.ends_with('(') {
+                    continue;
+                }
+                let name_end = before.len() - 1;
+                let name_start = before[..name_end]
+                    .char_indices()
+                    .rev()
+                    .find(|(_, c)| !(c.is_ascii_alphanumeric() || *c == '_'))
+                    .map(|(i, c)| i + c.len_utf8())
+                    .unwrap_or(0);
+                let mut kind = before[name_start..name_end].to_string();
+                // Attributes of extern types are a kind of their own.
+                let rest = &text[b..];
+                if rest
+                    .lines()
+                    .take(3)
+                    .any(|l| l.trim_start().starts_with("extern type"))
+                {
+                    kind.push_str("@extern");
+                }
+                by_kind.entry(kind).or_default().push((a, b));
+            }
+            if by_kind.is_empty() {
+                return false;
+            }
+            let kinds: Vec<&String> = by_kind.keys().collect();
+            let kind = (*rng.pick(&kinds)).clone();
+            let (a, b) = *rng.pick(&by_kind[&kind]);
+            let cur = text[a..b]
+                .trim_start_matches('-')
+                .replace('_', "")
+                .parse::<u128>()
+                .ok();
+            let v = boundary_values(rng, cur);
+            let mut t = text.to_string();
+            t.replace_range(a..b, &v);
+            *bytes = t.into_bytes();
         }
         "hostile_identifier" => {
             let Ok(text) = std::str::from_utf8(bytes) else {
